@@ -163,12 +163,12 @@ PROPS["C16"] = {
 
 PROPS["C12"] = {
     "level": "model_checking",
-    "technique": "explicit-state BFS over triggers, value changes, SYNCs, ticks, NMT changes and parameter writes against a reference TPDO model (69 parameter configurations) + exhaustive sweep over all mapping compositions",
-    "text": "(a) 69 configurations (60..68 repeat nine of the others with the two TPDOs being numbers 2 and 3 instead of 0 and 1 - 1802h/1A02h, 1803h/1A03h, lower numbers absent; 36..53 with two event-driven TPDOs, the CiA 301 re-mapping procedure of TPDO0 to 1 or 3 objects while OPERATIONAL and a changed asynchronous object of TPDO1 as additional events; 54..59 with both TPDOs living on inhibit/event timers of their own - (inhibit,event) pairs (3,2|2,0) (3,2|0,3) (0,3|0,4) (2,4|3,3) (0,3|2,0) (3,0|2,2) ticks, i.e. event time shorter than inhibit time, expiries that do not transmit, timer ids handed from one TPDO to the other): TPDO0 event-driven (type 254/255) x inhibit {0,2,3 ticks} x event time {0,3,4 ticks}, mapped to an asynchronous 8-bit and a 16-bit object; TPDO1 synchronous of type {1,2,3,240}; started in PRE-OP or OPERATIONAL. 21 events: COTPdoTrigPdo, COTPdoTrigObj, dictionary write of the asynchronous object with a changed / an unchanged value, write of the other mapped object, SYNC, tick, NMT start/pre-op/stop/reset communication, SDO writes to 1800h:1 (invalidate/re-validate), :2, :3, :5. Per step the TPDO frames (identifier, DLC, data; in order per identifier, the order among different TPDOs within one step being unspecified) and the COPdoTransmit calls must equal the reference model: only in OPERATIONAL with a valid COB-ID, immediate transmission on a trigger unless the inhibit time runs, exactly one transmission at the end of the inhibit time for any number of triggers, event-timer transmissions exactly one event time after the last transmission, ties inhibit-first, type n on every n-th SYNC. (b) all 223 ordered compositions of 1..8 mapped objects of 1/2/3/4 bytes (<= 8 bytes) x two value patterns: frame == little-endian concatenation, DLC == mapped bytes.",
+    "technique": "explicit-state BFS over triggers, value changes, SYNCs, ticks, NMT changes and parameter writes against a reference TPDO model (71 parameter configurations) + exhaustive sweep over all mapping compositions",
+    "text": "(a) 71 configurations (69, 70: TPDO0 starts as a synchronous TPDO of type 1 / 2 and is re-typed to 254/255 and back by the legal procedure in any NMT state - event SDO 1800h:2=1; 60..68 repeat nine of the others with the two TPDOs being numbers 2 and 3 instead of 0 and 1 - 1802h/1A02h, 1803h/1A03h, lower numbers absent; 36..53 with two event-driven TPDOs, the CiA 301 re-mapping procedure of TPDO0 to 1 or 3 objects while OPERATIONAL and a changed asynchronous object of TPDO1 as additional events; 54..59 with both TPDOs living on inhibit/event timers of their own - (inhibit,event) pairs (3,2|2,0) (3,2|0,3) (0,3|0,4) (2,4|3,3) (0,3|2,0) (3,0|2,2) ticks, i.e. event time shorter than inhibit time, expiries that do not transmit, timer ids handed from one TPDO to the other): TPDO0 event-driven (type 254/255) x inhibit {0,2,3 ticks} x event time {0,3,4 ticks}, mapped to an asynchronous 8-bit and a 16-bit object; TPDO1 synchronous of type {1,2,3,240}; started in PRE-OP or OPERATIONAL. 21 events: COTPdoTrigPdo, COTPdoTrigObj, dictionary write of the asynchronous object with a changed / an unchanged value, write of the other mapped object, SYNC, tick, NMT start/pre-op/stop/reset communication, SDO writes to 1800h:1 (invalidate/re-validate), :2, :3, :5. Per step the TPDO frames (identifier, DLC, data; in order per identifier, the order among different TPDOs within one step being unspecified) and the COPdoTransmit calls must equal the reference model: only in OPERATIONAL with a valid COB-ID, immediate transmission on a trigger unless the inhibit time runs, exactly one transmission at the end of the inhibit time for any number of triggers, event-timer transmissions exactly one event time after the last transmission, ties inhibit-first, type n on every n-th SYNC. (b) all 223 ordered compositions of 1..8 mapped objects of 1/2/3/4 bytes (<= 8 bytes) x two value patterns: frame == little-endian concatenation, DLC == mapped bytes.",
     "note": "a write to 18xxh:5 while the inhibit time runs ends the inhibit time and sends a waiting transmission (the behaviour the repository's unit test pins down); explicit triggers of the synchronous TPDO and inhibit on synchronous TPDOs are outside the statement and not in the alphabet; depth-bounded",
     "jobs": {
-        "quick": [J("c12", c, depth=7, deadline=100, allow_dead=True) for c in range(69)] + [J("c12map")],
-        "thorough": [J("c12", c, depth=10, deadline=1200, max_states=20000000, allow_dead=True) for c in range(69)] + [J("c12map")],
+        "quick": [J("c12", c, depth=7, deadline=100, allow_dead=True) for c in range(71)] + [J("c12map")],
+        "thorough": [J("c12", c, depth=10, deadline=1200, max_states=20000000, allow_dead=True) for c in range(71)] + [J("c12map")],
     },
 }
 
@@ -198,17 +198,19 @@ E8 = ["CO_EMCY_N=8"]; S15 = {"nerr": 3, "big": 0}
 PROPS["C15"] = {
     "level": "model_checking",
     "technique": "explicit-state BFS over error set/clear/reset calls, 1003h/1014h writes, read-outs and NMT changes against a reference EMCY model (fixpoint for history depths 0..3)",
-    "text": "12 configurations: emergency tables with register classes {0,1,1,2,7} and {1,1,1,1,1} x history depth {0 (absent),1,2,3,8}, one with 1014h initially disabled, one left in INIT; CO_EMCY_N 8 and 32. Events: COEmcySet(e, with/without manufacturer field) and COEmcyClr(e) for 5 errors and one index >= CO_EMCY_N; COEmcyReset(silent 0/1); SDO write 1003h:0 with 0 and 1; SDO reads of 1003h:0..depth+1 and 1001h; COEmcyGet/COEmcyCnt; NMT stop/start/pre-op; SDO write 1014h disable/enable; a burst macro-step (three activations) for the depth-8 ring. After every step: EMCY frames (identifier from 1014h, code, register, manufacturer bytes; one per real transition, none while 1014h is invalid or the NMT state forbids), 1001h, COEmcyCnt, COEmcyGet of all slots, 1003h count and entries newest-first, SDO verdicts. Closed state space (fixpoint) for history depths 0..3, depth-bounded for depth 8.",
+    "text": "12 configurations: emergency tables with register classes {0,1,1,2,7} and {1,1,1,1,1} x history depth {0 (absent),1,2,3,8}, one with 1014h initially disabled, one left in INIT; CO_EMCY_N 8 and 32. Events: COEmcySet(e, with/without manufacturer field) and COEmcyClr(e) for 5 errors and one index >= CO_EMCY_N (the five errors sit in table rows 0..4 and, in three further layouts of the 32-row build, in rows {5,10,18,9,3}, {7,8,15,16,24}, {6,13,14,22,29} - neighbours across the borders of the status bytes, particular bit positions); COEmcyReset(silent 0/1); SDO write 1003h:0 with 0 and 1; SDO reads of 1003h:0..depth+1 and 1001h; COEmcyGet/COEmcyCnt; NMT stop/start/pre-op; SDO write 1014h disable/enable; a burst macro-step (three activations) for the depth-8 ring. After every step: EMCY frames (identifier from 1014h, code, register, manufacturer bytes; one per real transition, none while 1014h is invalid or the NMT state forbids), 1001h, COEmcyCnt, COEmcyGet of all slots, 1003h count and entries newest-first, SDO verdicts. Closed state space (fixpoint) for history depths 0..3, depth-bounded for depth 8.",
     "note": "an index >= CO_EMCY_N is ignored or treated as the last row (both accepted, then full consistency required); the register byte of non-silent-reset frames may be any value reachable while clearing; reads above the current count and the abort code of a refused 1003h:0 write are not judged",
     "jobs": {
         "quick":    [J("c15", c, defs=E8, depth=40, deadline=100) for c in (0, 1, 2, 5, 6, 7, 10, 11)] +
                     [J("c15", c, defs=E8, depth=6, deadline=100) for c in (3, 4, 8, 9)] +
-                    [J("c15", 2, depth=40, deadline=100), J("c15", 8, depth=6, deadline=100), J("c15", 4, depth=5, deadline=100)],
+                    [J("c15", 2, depth=40, deadline=100), J("c15", 8, depth=6, deadline=100), J("c15", 4, depth=5, deadline=100)] +
+                    [J("c15", 2, depth=40, deadline=100, opts={"layout": l}) for l in (1, 2, 3)],
         "thorough": [J("c15", c, defs=E8, depth=40, deadline=850) for c in (0, 1, 2, 5, 6, 7, 10, 11)] +
                     [J("c15", c, defs=E8, depth=40, deadline=850, max_states=8000000) for c in (3, 8)] +
                     [J("c15", c, defs=E8, depth=7, deadline=850, max_states=20000000) for c in (4, 9)] +
                     [J("c15", c, defs=E8, depth=10, deadline=850, max_states=20000000, opts=S15) for c in (4, 9)] +
-                    [J("c15", 3, depth=40, deadline=850, max_states=8000000), J("c15", 7, depth=40, deadline=850), J("c15", 4, depth=7, deadline=850, max_states=20000000)],
+                    [J("c15", 3, depth=40, deadline=850, max_states=8000000), J("c15", 7, depth=40, deadline=850), J("c15", 4, depth=7, deadline=850, max_states=20000000)] +
+                    [J("c15", c, depth=40, deadline=850, max_states=8000000, opts={"layout": l}) for l in (1, 2, 3) for c in (2, 7)],
     },
 }
 
@@ -272,7 +274,7 @@ SAFE = {"safety_only": 1}
 def S(d):
     x = dict(SAFE); x.update(d); return x
 def c01_jobs(quick):
-    dl = 100 if quick else 900
+    dl = 60 if quick else 900
     jobs = [J("c01sub", c, deadline=dl) for c in range(16)]
     # SDO cluster (scaled buffer to a fixpoint, real buffer, two servers, truncated frames)
     jobs += [J("c04", 0, defs=SC3, depth=60, deadline=dl, opts=S({"coarse": 1, "small": 1, "fewinit": 1, "dlc": 1})),
@@ -295,11 +297,16 @@ def c01_jobs(quick):
     jobs += [J("c17", 7, deadline=dl, opts=SAFE), J("c20", 0, depth=3 if quick else 4, deadline=dl, opts=SAFE), J("c20", 3, depth=3 if quick else 4, deadline=dl, opts=SAFE)]
     # SDO client against every deviating server (user buffers are exact-size heap blocks), NMT/gating alphabet with a timer-driven TPDO
     jobs += [J("c19", c, deadline=dl, opts=SAFE) for c in (0, 1, 14, 15, 24, 25)] + [J("c09", 4, depth=80, deadline=dl, opts=SAFE)]
+    # a driver that passes the raw DLC code through: every full frame arrives with DLC 15 (the stack must never index by the received DLC)
+    L15 = S({"longdlc": 15})
+    jobs += [J("c13", c, depth=30, deadline=dl, allow_dead=True, opts=L15) for c in (9, 73, 10, 42, 106)] + [J("c09", 0, depth=80, deadline=dl, opts=L15), J("c16", 2, depth=60, deadline=dl, opts=L15)]
+    jobs += [J("c11", 5, depth=4 if quick else 6, deadline=dl, opts=L15), J("c12", 22, depth=5 if quick else 7, deadline=dl, allow_dead=True, opts=L15), J("c19", 24, deadline=dl, opts=L15),
+             J("c04", 0, defs=SC3, depth=60, deadline=dl, opts=S({"coarse": 1, "small": 1, "fewinit": 1, "longdlc": 15})), J("c18", 1, depth=60, deadline=dl, opts=S({"part": 2, "small": 1, "longdlc": 15}))]
     return jobs
 PROPS["C01"] = {
     "level": "model_checking",
     "technique": "explicit-state exploration of the sanitizer-instrumented implementation per service cluster (closed state space for the scaled SDO server, depth bounds elsewhere) plus an exhaustive sweep over all subsets of the optional dictionary groups; only the safety monitor judges",
-    "text": "Every exploration of every other property runs on an ASan+UBSan build with the safety monitor (sanitizer report, fatal-error callback, per-step CPU watchdog for unbounded loops, <= CO_SDO_BUF_SEG+2 frames per step, balanced timer lock) - C01 re-runs one representative of each cluster in safety-only mode with wider alphabets: (1) dictionary subsets: all 27648 combinations of {1003h, 1005h with/without 1006h or producing, 1014h, 1016h ok / count larger than the entries, 1017h, 1200h fixed / writable, 1280h, RPDO0 absent / communication record only / asynchronous / synchronous, RPDO1 synchronous, TPDO0 likewise, TPDO1} at three timer frequencies; for each, CONodeInit + start and every sequence of <= 2 (thorough: 3) of 56 events: NMT commands incl. DLC 0, ticks, SDO requests to every optional object incl. DLC 0 and 3, RPDO/SYNC/heartbeat/LSS/foreign frames with short DLC, TPDO triggers incl. out-of-range numbers, EMCY calls incl. an index beyond the table, SDO client request/response, failing CAN send, CAN read error, open segmented/block transfers; (2) SDO server: the closed state space of the 3-segment build and depth-bounded runs of the real 127-segment buffer and of CO_SSDO_N=2, each with truncated request frames added, a run whose state identity keeps the cursors and counters finished transfers leave behind, and the conforming download/upload dialogues of C02/C03 on the real buffer from the initial state and after completed or abandoned earlier transfers; (3) timer manager with the tick interrupt injected at every preemption point; (4) heartbeat consumer tables, heartbeat producer interference alphabet, all RPDO tables with a synchronous RPDO above an absent/asynchronous channel, all RPDO/TPDO mapping compositions incl. dummies, PDO reconfiguration histories, EMCY, LSS (full alphabet), parameter store/restore with NVM faults, the mixed reset alphabet of C20, the SDO client against every deviating server behaviour of C19 (smallest and largest size shards, both directions) and the NMT alphabet of C09 with a timer-driven TPDO.",
+    "text": "Every exploration of every other property runs on an ASan+UBSan build with the safety monitor (sanitizer report, fatal-error callback, per-step CPU watchdog for unbounded loops, <= CO_SDO_BUF_SEG+2 frames per step, balanced timer lock) - C01 re-runs one representative of each cluster in safety-only mode with wider alphabets: (1) dictionary subsets: all 27648 combinations of {1003h, 1005h with/without 1006h or producing, 1014h, 1016h ok / count larger than the entries, 1017h, 1200h fixed / writable, 1280h, RPDO0 absent / communication record only / asynchronous / synchronous, RPDO1 synchronous, TPDO0 likewise, TPDO1} at three timer frequencies; for each, CONodeInit + start and every sequence of <= 2 (thorough: 3) of 56 events: NMT commands incl. DLC 0, ticks, SDO requests to every optional object incl. DLC 0 and 3, RPDO/SYNC/heartbeat/LSS/foreign frames with short DLC, TPDO triggers incl. out-of-range numbers, EMCY calls incl. an index beyond the table, SDO client request/response, failing CAN send, CAN read error, open segmented/block transfers; (2) SDO server: the closed state space of the 3-segment build and depth-bounded runs of the real 127-segment buffer and of CO_SSDO_N=2, each with truncated request frames added, a run whose state identity keeps the cursors and counters finished transfers leave behind, and the conforming download/upload dialogues of C02/C03 on the real buffer from the initial state and after completed or abandoned earlier transfers; (3) timer manager with the tick interrupt injected at every preemption point; (4) heartbeat consumer tables, heartbeat producer interference alphabet, all RPDO tables with a synchronous RPDO above an absent/asynchronous channel, all RPDO/TPDO mapping compositions incl. dummies, PDO reconfiguration histories, EMCY, LSS (full alphabet), parameter store/restore with NVM faults, the mixed reset alphabet of C20, the SDO client against every deviating server behaviour of C19 (smallest and largest size shards, both directions) and the NMT alphabet of C09 with a timer-driven TPDO; (5) the RPDO/SYNC, NMT, heartbeat consumer, TPDO, SDO server, SDO client and LSS explorations once more with a driver that passes the raw DLC code of the wire through (every full frame arrives with DLC 15).",
     "note": "payload values outside the representatives are not enumerated (control fields and sizes are); histories longer than the bounds where no fixpoint is reached; API misuse (NULL arguments, mode values outside the enum) is outside the statement; the watchdog treats 4 s of CPU time without progress as an unbounded loop",
     "jobs": {"quick": c01_jobs(True), "thorough": c01_jobs(False)},
 }
